@@ -545,7 +545,6 @@ Example width_irrelevant_triu_nonvacuous :
 Proof. repeat split; try reflexivity; repeat constructor; lia. Qed.
 
 (* ------------------------------------------------------------------ kron, pad, stack: promoted arithmetic *)
-Definition not_u64 (t : ity) : bool := sg t || (bits t <? 64).
 
 Lemma promote_i64_l t : std t -> not_u64 t = true -> promote (DInt t) (DInt i64) = DInt i64.
 Proof.
@@ -834,8 +833,6 @@ Proof.
     cbn [length] in *. rewrite !Nat2Z.inj_succ in *. lia.
 Qed.
 
-Definition uncompress_clause (t : ity) (indptr : list Z) : bool :=
-  fits (DInt t) (Z.of_nat (length indptr) - 1).
 
 Theorem width_irrelevant_uncompress_partial_proof t indptr :
   std t -> uncompress_clause t indptr = true ->
@@ -964,3 +961,78 @@ Example width_irrelevant_from_coo_nonvacuous :
   rmap (fun p => (tv (fst p), tv (snd p))) (m_from_coo None (DInt i8) 3 100 [0; 5; 299]) = Ok ([0; 5; 99], [0; 2; 2; 3]) /\
   m_from_coo (Some (DInt i8)) (DInt i16) 3 200 [0; 5; 599] = Raise ValueError.
 Proof. split; reflexivity. Qed.
+
+(* ------------------------------------------------------------------ convert._transpose: the dtype chosen for the
+   new indices and the new indptr holds the compressed shape AND the number of stored elements *)
+Lemma transpose_dtype_is_get_out xd R C n :
+  transpose_dtype xd R C n = get_out_dtype xd (Z.max (Z.max R C) n).
+Proof.
+  unfold transpose_dtype, get_out_dtype, g_transpose_dtype. cbn [bind py_max2 as_int].
+  destruct (Z.ltb_spec (Z.max R C) n); cbn [bind]; f_equal; f_equal; f_equal; lia.
+Qed.
+
+Lemma transpose_dtype_fits t R C n :
+  std t -> 0 <= Z.max (Z.max R C) n < 2 ^ 64 ->
+  exists t', transpose_dtype (DInt t) R C n = Ok (DInt t') /\ std t' /\
+             fits (DInt t') (Z.max (Z.max R C) n) = true.
+Proof.
+  intros St Hm. rewrite transpose_dtype_is_get_out.
+  destruct (get_out_dtype_spec_proof t _ St Hm) as [t' [E [S' [F' _]]]]. eauto.
+Qed.
+
+Lemma transpose_store_id t m vals :
+  std t -> fits (DInt t) m = true -> Forall (fun v => 0 <= v <= m) vals ->
+  tv (s_transpose_store (DInt t) vals) = vals.
+Proof.
+  intros St Fm H. unfold s_transpose_store, assign_into, astype. cbn [tv].
+  apply map_wr_id; [apply std_pos, St|]. eapply Forall_impl; [|exact H]. cbn beta. intros v Hv.
+  apply (fits_le t m); [apply std_pos, St|exact Fm|exact Hv].
+Qed.
+
+Lemma transpose_store_inf vals : tv (s_transpose_store DInf vals) = vals.
+Proof.
+  unfold s_transpose_store, assign_into, astype. cbn [tv]. induction vals; cbn; congruence.
+Qed.
+
+Theorem width_irrelevant_transpose_proof t R C rc cc :
+  std t -> 0 < R -> 0 < C -> coords_in R rc -> coords_in C cc ->
+  Z.max (Z.max R C) (Z.of_nat (length rc)) < 2 ^ 64 ->
+  exists t',
+    rmap (fun p => (tdt (fst p), tdt (snd p))) (m_transpose (DInt t) R C rc cc) = Ok (DInt t', DInt t') /\
+    std t' /\
+    fits (DInt t') (Z.of_nat (length rc)) = true /\
+    rmap (fun p => (tv (fst p), tv (snd p))) (m_transpose (DInt t) R C rc cc) =
+    rmap (fun p => (tv (fst p), tv (snd p))) (m_transpose DInf R C rc cc).
+Proof.
+  intros St HR HC Hrc Hcc Hm.
+  set (n := Z.of_nat (length rc)) in *. set (m := Z.max (Z.max R C) n) in *.
+  destruct (transpose_dtype_fits t R C n St ltac:(unfold m in *; lia)) as [t' [E [S' F']]]. fold m in F'.
+  pose proof (std_pos t' S') as Hb.
+  exists t'. unfold m_transpose. fold n. rewrite E. cbn [bind rmap fst snd].
+  assert (Einf : transpose_dtype DInf R C n = Ok DInf).
+  { rewrite transpose_dtype_is_get_out. reflexivity. }
+  rewrite Einf. cbn [bind rmap fst snd].
+  split; [reflexivity|]. split; [exact S'|].
+  split; [apply (fits_le t' m); [exact Hb|exact F'|unfold m, n; lia]|].
+  rewrite (transpose_store_id t' m rc S' F') by (eapply Forall_impl; [|exact Hrc]; cbn; unfold m; lia).
+  rewrite (transpose_store_id t' m cc S' F') by (eapply Forall_impl; [|exact Hcc]; cbn; unfold m; lia).
+  rewrite !transpose_store_inf.
+  f_equal. f_equal.
+  unfold assign_into, astype. cbn [tv].
+  replace (map (wr DInf) (0 :: cumsum_from 0 (map (fun r => count_eq r rc) (zrange R))))
+    with (0 :: cumsum_from 0 (map (fun r => count_eq r rc) (zrange R)))
+    by (generalize (0 :: cumsum_from 0 (map (fun r => count_eq r rc) (zrange R))); intros l; induction l; cbn; congruence).
+  apply map_wr_id; [exact Hb|].
+  pose proof (count_sum_le (zrange R) rc (zrange_NoDup R)) as Hs.
+  constructor; [apply fits_zero, Hb|].
+  eapply Forall_impl; [|apply (cumsum_bound _ 0)].
+  - cbn beta. intros v Hv. apply (fits_le t' m); [exact Hb|exact F'|unfold m, n; lia].
+  - rewrite Forall_map. apply Forall_forall. intros r _. apply count_eq_nonneg.
+Qed.
+
+(* the situation the joins create: 8-bit indices, more than 255 stored elements, small extents *)
+Example width_irrelevant_transpose_nonvacuous :
+  let rc := repeat 0 (Z.to_nat 150) ++ repeat 1 (Z.to_nat 150) in
+  let cc := repeat 2 (Z.to_nat 300) in
+  rmap (fun p => (tdt (snd p), tv (snd p))) (m_transpose (DInt u8) 2 3 rc cc) = Ok (DInt u16, [0; 150; 300]).
+Proof. vm_compute. reflexivity. Qed.
